@@ -68,12 +68,12 @@ PowNat(F, a, n) == IF n = 0 THEN One(F) ELSE Mul(F, PowNat(F, a, n - 1), a)
 RECURSIVE Bits(_)
 Bits(n) == IF n = 0 THEN <<>> ELSE <<n % 2>> \o Bits(n \div 2)
 
-RECURSIVE PowBits(_, _, _)
+\* square-and-multiply from the most significant bit, as a fold (no deep recursion: exponents of thousands of
+\* bits are used); the definition is  x^(2k+b) = (x^k)^2 * x^b
 PowBits(F, a, bits) ==
-  IF bits = <<>> THEN One(F)
-  ELSE LET h == PowBits(F, a, Tail(bits))
-           s == Mul(F, h, h)
-       IN IF Head(bits) = 1 THEN Mul(F, s, a) ELSE s
+  FoldLeft(LAMBDA acc, k : LET sq == Mul(F, acc, acc)
+                            IN IF bits[Len(bits) + 1 - k] = 1 THEN Mul(F, sq, a) ELSE sq,
+           One(F), Idx(1, Len(bits)))
 
 Pow(F, a, n) == PowBits(F, a, Bits(n))
 
